@@ -479,6 +479,25 @@ func constIndex(info *types.Info, e ast.Expr) bool {
 	return isC
 }
 
+// dropZeroTerms removes constant-zero summands (`x + 0`).
+func dropZeroTerms(info *types.Info, e ast.Expr) ast.Expr {
+	be, ok := ast.Unparen(e).(*ast.BinaryExpr)
+	if !ok || be.Op != token.ADD {
+		return e
+	}
+	x, y := dropZeroTerms(info, be.X), dropZeroTerms(info, be.Y)
+	if v, ok := core.IntConst(info, y); ok && v == 0 {
+		return x
+	}
+	if v, ok := core.IntConst(info, x); ok && v == 0 {
+		return y
+	}
+	if x != be.X || y != be.Y {
+		return &ast.BinaryExpr{X: x, Op: token.ADD, Y: y}
+	}
+	return e
+}
+
 // leafIs: every non-zero origin of e satisfies pred.
 func leafIs(info *types.Info, scope ast.Node, e ast.Expr, pred func(ast.Expr) bool) bool {
 	n := 0
@@ -577,22 +596,23 @@ func r2(c *core.Ctx, s *c03.Sender, p *c03.Parser, e *envelope) {
 			key := fmt.Sprintf("stamp/%s#%d", q.Name, idx[q.Name])
 			off := q.Field["Offset"]
 			if off == nil {
-				c.Failf(rule, key, q.Stmt.Pos(), "the enqueued command carries no Offset: its batch stores offset 0")
+				c.Failf(rule, key, q.Pos(), "the enqueued command carries no Offset: its batch stores offset 0")
 				continue
 			}
+			off = dropZeroTerms(info, off)
 			be, isSum := ast.Unparen(off).(*ast.BinaryExpr)
 			switch {
 			case !q.InLoop && c03.IsSourceOffset(info, off):
-				c.Okf(rule, key, q.Stmt.Pos(), "the start SELECT is stamped with the resume offset itself")
+				c.Okf(rule, key, q.Pos(), "the start SELECT is stamped with the resume offset itself")
 			case q.InLoop && isSum && be.Op == token.ADD &&
 				(c03.IsSourceOffset(info, be.X) && c03.IsObj(info, p.Inc)(be.Y) || c03.IsSourceOffset(info, be.Y) && c03.IsObj(info, p.Inc)(be.X)):
-				c.Okf(rule, key, q.Stmt.Pos(), "Offset = ds.sourceOffset + decoder position after this command")
+				c.Okf(rule, key, q.Pos(), "Offset = ds.sourceOffset + decoder position after this command")
 			case q.InLoop && c03.IsSourceOffset(info, off):
-				c.Failf(rule, key, q.Stmt.Pos(), "the command is stamped with the base offset only: every checkpoint stores the start offset, so a restart replays the whole stream since the start (commands applied twice)")
+				c.Failf(rule, key, q.Pos(), "the command is stamped with the base offset only: every checkpoint stores the start offset, so a restart replays the whole stream since the start (commands applied twice)")
 			case q.InLoop && c03.IsObj(info, p.Inc)(off):
-				c.Failf(rule, key, q.Stmt.Pos(), "the command is stamped with the decoder position without the start offset: the stored offset is not a source replication offset and PSYNC after restart fails or jumps")
+				c.Failf(rule, key, q.Pos(), "the command is stamped with the decoder position without the start offset: the stored offset is not a source replication offset and PSYNC after restart fails or jumps")
 			default:
-				c.Undecidedf(rule, key, q.Stmt.Pos(), "Offset `%s` is not `ds.sourceOffset + <second result of MustDecodeOpt>`", c.Src(off))
+				c.Undecidedf(rule, key, q.Pos(), "Offset `%s` is not `ds.sourceOffset + <second result of MustDecodeOpt>`", c.Src(off))
 			}
 		}
 	}
@@ -656,7 +676,7 @@ func r3(c *core.Ctx, s *c03.Sender, p *c03.Parser, e *envelope) {
 		idx[q.Name]++
 		key := fmt.Sprintf("injected-select/%s#%d", q.Name, idx[q.Name])
 		if _, isKey := bm[cmd]; isKey {
-			c.Okf(rule, key, q.Stmt.Pos(), "%q is a barrierMap key: the sender flushes before it", cmd)
+			c.Okf(rule, key, q.Pos(), "%q is a barrierMap key: the sender flushes before it", cmd)
 			continue
 		}
 		fixed := func(ft cfgq.Fact) bool {
@@ -666,9 +686,9 @@ func r3(c *core.Ctx, s *c03.Sender, p *c03.Parser, e *envelope) {
 		}
 		tn := q.Pt.Node()
 		if p.G.Path(cfgq.Query{From: p.G.Entry(), AvoidEdge: p.Fl.Edge(fixed), Target: func(n ast.Node) bool { return n == tn }}) == nil {
-			c.Okf(rule, key, q.Stmt.Pos(), "%q is not a barrierMap key (the table is case-sensitive), but it is only enqueued when a fixed target database is configured, where every batch runs in that one database", cmd)
+			c.Okf(rule, key, q.Pos(), "%q is not a barrierMap key (the table is case-sensitive), but it is only enqueued when a fixed target database is configured, where every batch runs in that one database", cmd)
 		} else {
-			c.Undecidedf(rule, key, q.Stmt.Pos(), "the injected %q is not a barrierMap key: the sender does not flush before it", cmd)
+			c.Undecidedf(rule, key, q.Pos(), "the injected %q is not a barrierMap key: the sender does not flush before it", cmd)
 		}
 	}
 }
